@@ -659,7 +659,23 @@ namespace xsimd
         template <size_t N, class A>
         XSIMD_INLINE batch<uint16_t, A> rotate_left(batch<uint16_t, A> const& self, requires_arch<avx2>) noexcept
         {
-            return _mm256_alignr_epi8(self, self, N);
+            // N counts 16-bit elements, alignr_epi8 counts bytes and works inside each 128-bit lane:
+            // pair every lane with the other one and shift the pair
+            constexpr size_t n = (N % 16) * 2;
+            const __m256i swapped = _mm256_permute2x128_si256(self, self, 0x01);
+            XSIMD_IF_CONSTEXPR(n == 0)
+            {
+                return self;
+            }
+            XSIMD_IF_CONSTEXPR(n < 16)
+            {
+                return _mm256_alignr_epi8(swapped, self, (n < 16 ? n : 0));
+            }
+            XSIMD_IF_CONSTEXPR(n == 16)
+            {
+                return swapped;
+            }
+            return _mm256_alignr_epi8(self, swapped, (n > 16 ? n - 16 : 0));
         }
         template <size_t N, class A>
         XSIMD_INLINE batch<int16_t, A> rotate_left(batch<int16_t, A> const& self, requires_arch<avx2>) noexcept
